@@ -284,19 +284,28 @@ CLAIMS["C18"] = dict(
          "alternate, connection_lost last), the fake transport's mimicry of write after EOF/loss.",
     technique="Lean 4 invariant proof over an LTS + differential testing on real sockets")
 CLAIMS["C19"] = dict(
-    text="27 Lean theorems: for each function of anyio.itertools a Lean transcription of AnyIO's control flow "
+    text="32 Lean theorems: for each function of anyio.itertools a Lean transcription of AnyIO's control flow "
          "equals the textbook definition of the stdlib function for all arguments (including invalid ones: same "
          "error class) and all element lists; reduce equals a left fold on both branches; for tee an LTS "
          "invariant over all interleavings of any number of consumers shows each consumer observes exactly the "
          "source sequence and the source is advanced once per element plus once for the end. Four-way "
          "differential testing (anyio over sync and async sources, CPython's itertools/functools, the model's "
          "impl and spec) ties both Lean definitions to the real code and to the real stdlib; tee schedules are "
-         "enumerated and replayed in the model.",
+         "enumerated and replayed in the model. Tee under cancellation (Props/C19teecancel.lean, 5 theorems "
+         "over a second LTS in which every suspension point of __anext__/fill()/Lock.acquire/the sync-source "
+         "adaptor is cancellable or shielded exactly as in the code, sync or cancel-safe async source, any "
+         "number of consumers, any event list): what a consumer has received is always a prefix of the source "
+         "sequence and the whole sequence once it saw the end - a cancelled anext() never skips or repeats an "
+         "element; a cancelled call changes nothing but the cancellation count; the source is pulled once per "
+         "element plus the end plus once per cancelled pull, never concurrently, and every pulled element is "
+         "stored; with all consumers idle the lock is free with an empty queue; no internal RuntimeError. Tied "
+         "to the real tee by trace validation with cancellations at every decision point and an oracle.",
     design="5/C19",
     note=BASE_NOTE + "CPython's combinations/permutations/product are parameters of the theorems (trusted, "
          "two stated hypotheses checked against CPython by the harness); batched(strict=) follows the 3.13 "
-         "documentation's equivalent; callbacks are a fixed family of pure functions; tee is modelled without "
-         "cancellation.",
+         "documentation's equivalent; callbacks are a fixed family of pure functions; the async source of the tee-cancellation "
+         "model is assumed cancel-safe (a cancelled __anext__ takes nothing; an async generator instead ends on "
+         "cancellation, which is a property of the source); native Task.cancel() is outside that model.",
     technique="Lean 4 equational proofs (impl = spec) and an LTS invariant for tee + differential testing")
 
 CLAIMS["C01"].update(
